@@ -38,6 +38,7 @@ def oracleOf (j : Json) : PyOracle :=
     call := fun args =>
       match callT.lookup (String.ofList args) with
       | some (.str "syntax") => .syntaxError
+      | some (.str "star") => .star
       | some (.arr a) =>
         (match a.toList with
          | [Json.num n, Json.arr kws] => .shape n.mantissa.toNat (kws.toList.map fun k => (jsonToStr k).toList)
